@@ -1323,10 +1323,11 @@ impl Actor {
                             deal_proposal.provider.id().unwrap(),
                         )?;
                     }
-                } else {
+                } else if curr_epoch > deal_proposal.start_epoch {
                     deal_state.last_updated_epoch = curr_epoch;
                     new_deal_states.push((deal_id, deal_state));
                 }
+                // (settling up to the start epoch is a no-op: the deal is still to receive its first update)
 
                 settlements.push(DealSettlementSummary {
                     completed: remove_deal,
